@@ -36,6 +36,9 @@ needs_race() { case "$1" in C10|C12|C13) return 0;; *) return 1;; esac; }
 
 if [ "$ID" = replay ]; then
   PROP=$(sed -n 's/.*"property": *"\([A-Z0-9]*\)".*/\1/p' "$ARG" | head -1)
+  if grep -q '"go-runtime-fatal-error-in-larking"' "$ARG"; then
+    exec "$0" "$PROP" quick # the crash needs the check's parallel workers: run the check again
+  fi
   if needs_sched "$PROP"; then build_sched; exec_bin="$SCRATCH/verif-sched"; else build_plain; exec_bin="$SCRATCH/verif"; fi
   "$exec_bin" replay "$ARG" --root "$HERE"
   exit $?
@@ -44,9 +47,32 @@ fi
 if needs_sched "$ID"; then
   build_sched
   if needs_race "$ID"; then build_race; fi
-  "$SCRATCH/verif-sched" check "$ID" --tier "$ARG" --root "$HERE"
+  "$SCRATCH/verif-sched" check "$ID" --tier "$ARG" --root "$HERE" 2>&1 | tee "$SCRATCH/run.log"
+  rc=${PIPESTATUS[0]}
 else
   build_plain
-  "$SCRATCH/verif" check "$ID" --tier "$ARG" --root "$HERE"
+  "$SCRATCH/verif" check "$ID" --tier "$ARG" --root "$HERE" 2>&1 | tee "$SCRATCH/run.log"
+  rc=${PIPESTATUS[0]}
 fi
-exit $?
+# A Go runtime "fatal error" (concurrent map writes, ...) cannot be recovered inside the checker:
+# the process is gone before it can report. When the crash is in larking's own code it is what the
+# code under test did to the checker's parallel workers, i.e. a violation, not a harness fault.
+if [ "$rc" != 0 ] && [ "$rc" != 1 ] && grep -a -q '^fatal error:' "$SCRATCH/run.log" \
+   && grep -a -A40 '^fatal error:' "$SCRATCH/run.log" | grep -a -q 'larking.io/larking\.'; then
+  mkdir -p "$HERE/replays/$ID"
+  what=$(grep -a -m1 '^fatal error:' "$SCRATCH/run.log")
+  rp="$HERE/replays/$ID/runtime-fatal-$(echo "$what" | md5sum | cut -c1-12).json"
+  python3 - "$ID" "$what" "$SCRATCH/run.log" "$rp" <<'PY'
+import json,sys
+pid,what,log,out=sys.argv[1:5]
+lines=open(log,errors='replace').read().splitlines()
+i=next(k for k,l in enumerate(lines) if l.startswith('fatal error:'))
+json.dump({"property":pid,"oracle":"go-runtime-fatal-error-in-larking","key":what,
+ "note":"the Go runtime aborted the checker inside larking code while its parallel workers exercised independent muxes (state shared between muxes, or an unsynchronised global)",
+ "case":{"crash":lines[i:i+60]}},open(out,'w'),indent=1)
+PY
+  echo "VIOLATION property=$ID replay=$rp"
+  echo "  oracle=go-runtime-fatal-error-in-larking $what"
+  exit 1
+fi
+exit $rc
